@@ -25,7 +25,7 @@ RULE += ('; also: coroutine and callable-object callbacks outliving their step, 
 ASSUMPTIONS = ['samples in ProcessListener callbacks are not part of the statement (recorded only)',
                'nested execution relies on nest_asyncio as configured by plumpy.set_event_loop_policy()']
 REQUIRED = ['samples/step', 'samples/hook', 'samples/callback', 'samples/outside', 'concurrent_runs', 'nested_runs', 'children', 'where/after-await',
-            'where/after-launch', 'where/after-nested', 'where/after-inline', 'outside_runner', 'parent_controlled_by_child', 'cleanup_callbacks', 'bound_method_callbacks', 'where/after-collect', 'own_waiting_state_samples', 'falsy_processes', 'where/after-collect-own']
+            'where/after-launch', 'where/after-nested', 'where/after-inline', 'outside_runner', 'parent_controlled_by_child', 'cleanup_callbacks', 'bound_method_callbacks', 'where/after-collect', 'own_waiting_state_samples', 'falsy_processes', 'where/after-collect-own', 'equal_process_pairs']
 BOUNDS = {'quick': '150 random concurrent sets + 24 nested scenarios', 'thorough': '1500 random concurrent sets + 200 nested scenarios'}
 TIMEOUT = {'quick': 900, 'thorough': 3600}
 
@@ -68,7 +68,7 @@ def _rand_script(rng, depth, allow_nested, name_hint=''):
         segs.append(ops)
     if any(op[0] == 'launch' for seg in segs for op in seg):
         segs[-1].append(['await_children'])
-    return {'segments': segs, 'sync': rng.random() < 0.3, 'falsy': rng.random() < 0.25}
+    return {'segments': segs, 'sync': rng.random() < 0.3, 'falsy': rng.random() < 0.25, 'all_equal': rng.random() < 0.5}
 
 
 def gen_cases(tier, seed):
@@ -80,7 +80,7 @@ def gen_cases(tier, seed):
         scripts = [_rand_script(rng, 2, False) for _ in range(k)]
         plan = []
         for _a in range(rng.randint(0, 3)):
-            plan.append({'at': rng.randint(0, 25), 'proc': rng.randint(0, 7), 'act': rng.choice(['pause', 'play', 'kill', 'pause', 'soon_fn', 'soon_coro', 'soon_obj', 'soon_bound', 'close_fresh'])})
+            plan.append({'at': rng.randint(0, 25), 'proc': rng.randint(0, 7), 'act': rng.choice(['pause', 'play', 'kill', 'pause', 'soon_fn', 'soon_coro', 'soon_obj', 'soon_bound', 'close_fresh', 'fail', 'soon_raise'])})
         cases.append({'kind': 'concurrent', 'scripts': scripts, 'plan': sorted(plan, key=lambda e: e['at']), 'wait': rng.random() < 0.3,
                       'inline_top': [rng.random() < 0.4 for _ in range(k)]})
     # an interruption (pause / kill) reaching a process that waits while being stepped inline -- by a parent step or by ordinary code
@@ -95,6 +95,12 @@ def gen_cases(tier, seed):
                 inline_top = [False, True]
             cases.append({'kind': 'concurrent', 'scripts': scripts, 'plan': [], 'qplan': [[-1 if parent_kind != 'top-inline' else 0, a[0]] for a in qplan],
                           'inline_top': inline_top, 'wait': False})
+    # a process that is in the middle of a step (suspended in an await, or waiting) is failed from ordinary code / by a raising callback
+    stepper_ = {'segments': [[['sample', 'a'], ['yield'], ['yield'], ['yield'], ['sample', 'b']], [['sample', 'c'], ['wait']], [['sample', 'd']]], 'sync': False}
+    for at in range(0, 9):
+        for act in ('fail', 'soon_raise'):
+            cases.append({'kind': 'concurrent', 'scripts': [stepper_, {'segments': [[['yield'], ['sample', 'x'], ['yield'], ['yield']]]}], 'plan': [{'at': at, 'proc': 0, 'act': act}],
+                          'inline_top': [at % 2 == 1, False], 'wait': False})
     # a child controls (pauses / plays / kills) its parent from inside its own step while the parent is not stepping
     for ctl in (['kill'], ['pause', 'play'], ['pause', 'kill'], ['pause'], ['play']):
         for parent_prep in ([], [['pause']], [['pause'], ['play']]):
@@ -139,6 +145,9 @@ def _obs(log, outside):
             obs['where'][w] = obs['where'].get(w, 0) + 1
         if kind == 'listener' and not ok:
             obs['listener_not_current'] += 1
+    # processes that compare equal to their parent (one nested / stepped inline / launched inside a step of the other)
+    obs['equal_process_pairs'] = sum(1 for n in names if '.' in n and n in curprog.PROCS and n.rsplit('.', 1)[0] in curprog.PROCS
+                                     and curprog.PROCS[n] == curprog.PROCS[n.rsplit('.', 1)[0]])
     obs['cleanup_callbacks'] = sum(1 for _n, kind, where, _ok, _c in log if kind == 'callback' and where == 'cleanup')
     obs['bound_method_callbacks'] = sum(1 for _n, kind, where, _ok, _c in log if kind == 'callback' and 'bound-method-of-' in where and not where.endswith('self'))
     obs['outside_runner'] = sum(1 for w, _c in outside if w == 'runner-after')
@@ -192,6 +201,18 @@ def run_concurrent(case):
                         other = everyone[(e['proc'] + 1) % len(everyone)]
                         if not p.has_terminated():
                             p.call_soon(other.bound_probe, p.raw_inputs['name'], 'outside-bound-method-of-%s' % ('other' if other is not p else 'self'))
+                    elif e['act'] == 'fail':
+                        # the process is failed from ordinary code (e.g. while one of its steps is suspended in an await, or it waits):
+                        # the hooks of that transition are its code all the same
+                        if not p.has_terminated():
+                            p.fail(RuntimeError('failed from outside'), None)
+                    elif e['act'] == 'soon_raise':
+                        # ... or by a callback it was handed that raises
+                        if not p.has_terminated():
+                            def boom(_p=p):
+                                curprog.sample(_p, 'callback', 'outside-raising')
+                                raise RuntimeError('callback fails')
+                            p.call_soon(boom)
                     elif e['act'] in ('soon_fn', 'soon_coro', 'soon_obj'):
                         # ordinary code (no process is current here) hands the process a callback: a function, a coroutine function or
                         # an object with an async __call__
